@@ -32,6 +32,13 @@ class G:
         if q < 0.2 and allow_plain:
             return str(v), ['val', 'i:%d' % v]
         op = r.choice(CMPS)
+        if q > 0.85:
+            # an operand of another arithmetic type whose value the parameter type cannot hold: k + 0.5 against an int / long
+            # argument.  `x op (k + 0.5)` is compared as double — exactly; over the integers it is the comparison on the right
+            k = r.choice(INT_DOM)
+            same = {'lt': ['le', 'i:%d' % k], 'le': ['le', 'i:%d' % k], 'gt': ['gt', 'i:%d' % k], 'ge': ['gt', 'i:%d' % k],
+                    'eq': ['not', 'any'], 'ne': ['any']}[op]
+            return 'trompeloeil::%s(%d.5)' % (op, k) if k >= 0 else 'trompeloeil::%s(%d.5)' % (op, k + 1) if k + 1 < 0 else 'trompeloeil::%s(-0.5)' % op, same
         typed = r.random() < 0.3
         return 'trompeloeil::%s%s(%d)' % (op, '<int>' if typed else '', v), [op, 'i:%d' % v]
 
